@@ -180,6 +180,16 @@ theorem C26_committed_frame (p : IdPolicy) (ops rest : List Op) (op : Op) (doc :
   rw [← hA, habs, List.getElem?_map, Option.map_map] at hk
   exact hk
 
+/-! ## The code in /repo -/
+
+/-- TIE to the source: the translator (tools/gen/C26.py, re-run by every check) found that `put_internal`
+    reads `next_frame_id()` before the WAL append at all three derived-data sites.  On a tree without
+    /verif/fixes/C26.diff the generated constant is `true` and this theorem does not check. -/
+theorem C26_code_policy : codePolicy = .frameId := by decide
+
+/-- C26 for the model the driver runs against the implementation -/
+theorem C26 : DerivedRefersToDocument codePolicy := C26_code_policy ▸ C26_derived_ids
+
 /-! ## Non-vacuity: concrete instances -/
 
 /-- the witness history under the repaired policy: ids 0 and 1 -/
